@@ -40,6 +40,7 @@ class Monitors:
         self.known_hits = []
         self.op_mark = 0
         self.had_join = False
+        self.hist_mark = {}
         self.snap = {}          # arn -> record snapshot taken when first seen terminal
         self.hist_len_at_term = {}
         self.err = ""
@@ -133,12 +134,27 @@ class Monitors:
         if "C03" in self.which:
             ops = sim.BROKER.oplog[self.op_mark:]
             self.op_mark = len(sim.BROKER.oplog)
+            # did this step append a *Failed history event (failure path of a fan-out)?
+            failed_now = False
+            for arn_, h in list(inst.eng.execution_history.items()):
+                k0 = self.hist_mark.get(arn_, 0)
+                new_events = list(h)[k0:]
+                self.hist_mark[arn_] = len(h)
+                if any(("Failed" in e["type"] or "TimedOut" in e["type"]) for e in new_events):
+                    failed_now = True
             acked = None
             for o in ops:
+                if o[0] == "multi-ack":
+                    self.fail("C03 delivery %s acknowledged by a multiple-ack of another message" % (o[2],))
                 if o[0] == "ack" and o[1].startswith("ev"):
                     acked = o
                 elif acked is not None and (o[0] == "broadcast" or (o[0] == "publish" and o[1].startswith("ev"))):
-                    tag = "[join] " if (self.had_join or inst.eng.branch_metadata) else ""
+                    tag = ""
+                    if self.had_join or inst.eng.branch_metadata:
+                        if o[0] == "broadcast":
+                            tag = "[join-end] "          # known finding: End:true fan-out acks before the terminal record
+                        elif failed_now:
+                            tag = "[join-failure] "      # known finding: check_pending_results acks before retry/catch successor
                     self.fail("C03 %sevent %s acknowledged before a consequence of the same handler was issued (%s %s)" % (tag, acked[2], o[0], o[1]))
                     break
             self.had_join = bool(inst.eng.branch_metadata)
